@@ -539,9 +539,12 @@ def run(ctx, chk):
     chk.floor("text codec obligations (shared with C17-e)", sub_t.count, 4)
     # repeated fields: an element is only kept if decoding it consumed input (shared with C12-e)
     import rules_c12
-    sub_v = Sub(chk, "C01-a", lambda r: r in ("C12-e/vec-item-consumed", "C12-g/optional-untagged-total"))
+    sub_v = Sub(chk, "C01-a", lambda r: r in ("C12-e/vec-item-consumed", "C12-g/optional-untagged-total", "C12-h/option-writer",
+                                              "C12-h/vec-writer"))
     rules_c12.vec_items(ctx, sub_v)
     rules_c12.optional_untagged(ctx, sub_v)
+    rules_c12.option_writer(ctx, sub_v)
+    rules_c12.vec_writer(ctx, sub_v)
     sub = Sub(chk, "C01-g", lambda r: r.startswith(("C16-b/", "C16-d/", "C16-e/", "C16-f/")))
     rules_c16.run(ctx, sub)
     chk.floor("length-style agreement obligations (shared with C16)", sub.count, 20)
